@@ -33,12 +33,12 @@ prop("C18",
      note="Trusted: Kani/CBMC, std Vec and slice::sort, Kani's allocator model. Heap-side length bounded (quick 3, thorough 6).")
 
 prop("C09",
-     units=[("kani", "u2_tape", None)],
+     units=[("kani", "u2_tape", None), ("native", "n10_tape_far", None)],
      level="model_checking",
      technique="Kani per-operation contract harnesses on the real Memory over an abstract view (total map), from arbitrary well-formed pre-states: one-step induction over call histories",
      design_ref="DESIGN.md section 4-U2, 5-C09",
      text="Every Memory operation is verified against its effect on the abstract view at a fresh symbolic index (frame included) from ANY well-formed state within the size bound; histories are unbounded by induction. Loop-free operations (read, check, mov) are complete over offsets in +-2^62.",
-     note="Bounded: buffer size, pointer slack and offsets of allocating calls (quick: 4 cells / 6 / 5; thorough: 8 / 12 / 10). Pointer API only for in-block pointers (Kani pointer model). Trusted: Kani's allocator model.")
+     note="Bounded: buffer size, pointer slack and offsets of allocating calls (quick: 4 cells / 6 / 5; thorough: 8 / 12 / 10). Pointer API only for in-block pointers (Kani pointer model). Trusted: Kani's allocator model. The magnitudes those harnesses cannot reach (a single growth step of millions of cells) are covered ONLY by a BOUNDED STAND-IN (unit n10_tape_far: operation sequences with offsets up to 3 * 2^20 cells against the abstract view; counted separately, never as proved).")
 
 prop("C17",
      units=[("kani", "u2_tape", None), ("kani", "u2b_bccontext", None)],
